@@ -62,12 +62,13 @@ Definition try_key (c : cfg) (w : world) (rel : list bytes) : res bytes :=
       let cand1 := removelast rel ++ [keyname] in
       match open_key c w cand1 with
       | Ok r => r                                     (* the adjacent key file opened: its verdict is final *)
-      | Err _ =>
+      | Err ENOENT =>                                 (* there is none: the REDKEY directory is consulted *)
           let cand2 := removelast (replace_nth rel idx redkey_dir) ++ [keyname] in
           match open_key c w cand2 with
           | Ok r => r
           | Err e => Err e
           end
+      | Err e => Err e                                (* it exists but cannot be opened: an error, not "no key" *)
       end
   end.
 
